@@ -93,6 +93,29 @@ void harness(void)
   if (verif_rv == -ETIMEDOUT) V_CANARY("api.timeout_reachable");
   if (verif_rv == -EINVAL) V_CANARY("api.einval_reachable");
   if (g.nsig > 1 && gc.plan_on) V_CANARY("api.two_signals_reachable");
+#elif defined(API_destroy)
+  if (process != NULL && process->status == ST_IN_PROGRESS) {
+    plan_from(process->stop, process->deadline);
+    gc.cfg_release_after_stop = true;
+    __CPROVER_assume(g.faults == 0);
+  }
+  if (process != NULL && process->status == ST_IN_CHILD) {
+    g.in_child = true;
+  }
+  bool default_policy = process != NULL && (int) process->stop.first.action == 0 &&
+                        (int) process->stop.second.action == 0 && (int) process->stop.third.action == 0;
+  bool was_running = process != NULL && process->status == ST_IN_PROGRESS;
+#include "gen/pre_reproc_destroy.inc"
+  reproc_t *verif_rv = reproc_destroy(process);
+#include "gen/post_reproc_destroy.inc"
+  /* C15: with the default policy destroy does not return before the child has
+     exited and been reaped (unless a system call failed) */
+  V_ASSERT("C15/destroy.default_policy_never_abandons_running_child",
+           IMPLIES(was_running && default_policy && g.faults == 0, g.child_reaped && g.reaps == 1));
+  if (was_running && g.child_reaped) V_CANARY("api.destroy_reaped_reachable");
+  if (was_running && default_policy && g.nsig > 0) V_CANARY("api.destroy_default_escalates_reachable");
+  if (process == NULL) V_CANARY("api.destroy_null_reachable");
+  process = NULL; /* freed by destroy */
 #else
 #error "select an API function"
 #endif
